@@ -72,7 +72,8 @@ def worker(i):
                     src = l.split("replay=")[1].strip()
                     dst = f"{ROOT}/regressions/{pid}"
                     os.makedirs(dst, exist_ok=True)
-                    if os.path.exists(src) and os.path.getsize(src) < 200_000:
+                    # (cases that sleep for real are not kept: regression inputs are replayed under every ambient combination)
+                    if os.path.exists(src) and os.path.getsize(src) < 200_000 and 'pause_ms' not in open(src).read():
                         shutil.copy(src, f"{dst}/{sid}.json")
                     break
         sh("git checkout -q -- .", f"{base}/repo")
